@@ -324,3 +324,17 @@ package packfile
 //gvc:  sink tryToDeltify requires sametype: arg1.#otype == arg2.#otype
 //gvc:  sink tryToDeltify requires window: 0 <= j && j < i && i - j < packWindow
 //gvc:end
+
+// objectsToPack: entries loaded as stored deltas (encodedDeltaObject) may lack
+// their base in the set being packed: whenever one was loaded, the delta chains
+// are fixed (fixAndBreakChains) before the list is handed on, so that no delta
+// is written without its base.
+//gvc:func (*DeltaSelector).objectsToPack
+//gvc:  props C07
+//gvc:  theory int
+//gvc:  opt coarse
+//gvc:  opt frame args
+//gvc:  results otps err
+//gvc:  loop 1 invariant pos: it1 >= 0
+//gvc:  ensures fixed: err == nil && calls("encodedDeltaObject") >= 1 ==> calls("fixAndBreakChains") == 1 && lastres("fixAndBreakChains") == nil
+//gvc:end
